@@ -109,6 +109,8 @@ def run(R):
                       "A local name may contain colons (`dbr:Category:Physics`); cutting at the last one looks up the undeclared prefix "
                       "`dbr:Category` and stores the name unexpanded, so Turtle and N-Triples spellings of one triple load differently")
     r11(R)
+    r12(R)
+    r13(R)
 
 
 def shared_dictionary(b, fam, prog, root_a, root_b):
@@ -735,3 +737,69 @@ def r11(R):
              where=(bad[0][0].where(bad[0][1].ln) if bad else b.where()),
              detail=None if not bad else "`%s(':')` takes everything up to the LAST colon as the prefix" % bad[0][1].name())
     R.floor("C13-R11", "prefix expanders (prefix-map lookup keyed by a piece cut at `:`)", n, 2)
+
+
+def r12(R):
+    """a test for UTF-16 surrogates is a closed range"""
+    prog = R.prog
+    R.rule("C13-R12", "surrogate tests are closed ranges: wherever a literal decoder or term cleaner compares a code point with the first surrogate "
+                      "U+D800 by order (>=, >, <, <=), the same value is also compared with the end of the range it means (U+DBFF / U+DC00 for the high "
+                      "half, U+DFFF / U+E000 for all surrogates). A test that is open above treats every character from U+E000 to U+FFFF - full-width "
+                      "forms, presentation forms, private use, U+FFFD - as half of a pair: the decoder gives up and the cleaner stores the raw "
+                      "surface text, so the escaped and the raw spelling of one literal load as different terms")
+    n = 0
+    UPPER = {0xDBFF, 0xDC00, 0xDFFF, 0xE000}
+    for b in sorted(prog.bodies.values(), key=lambda x: x.key):
+        if b.crate not in ("kolibrie", "shared") or "::tests::" in b.key:
+            continue
+        cmps = [(bb, rv, st) for bb, i, pl, rv, st in b.assigns() if rv["rv"] == "binop" and rv["op"] in ("Ge", "Gt", "Lt", "Le")]
+        opens = []
+        for bb, rv, st in cmps:
+            for x, k in ((rv["a"], rv["b"]), (rv["b"], rv["a"])):
+                if F.const_int(k) == 0xD800 and F.op_place(x) is not None:
+                    opens.append((bb, x, st))
+        for bb, x, st in opens:
+            n += 1
+            R.saw(b)
+            root = b.alias_root(x)
+            closed = False
+            for bb2, rv2, st2 in cmps:
+                for y, k in ((rv2["a"], rv2["b"]), (rv2["b"], rv2["a"])):
+                    if F.const_int(k) in UPPER and F.op_place(y) is not None and (b.alias_root(y) == root or F.op_local(y) == F.op_local(x)):
+                        closed = True
+            # `(0xD800..=0xDBFF).contains(&x)` compiles to a call, not to these comparisons; a match on a range pattern gives both comparisons
+            R.ob("C13-R12", "closed:%s:%d" % (b.short, n), "the comparison of a code point with U+D800 in %s has its upper bound" % b.short, closed, where=b.where(st.get("ln")),
+                 detail=None if closed else "`\\uFF0C` (full-width comma) is >= 0xD800: it is taken for a high surrogate, no low half follows, the literal is not decoded")
+    R.ob("C13-R12", "scanned", "order comparisons with U+D800 in the loaders and cleaners: %d" % n, True)
+
+
+def r13(R):
+    """every line loader removes a trailing comment with a scanner that knows IRIs and literals"""
+    prog = R.prog
+    from c14 import _char_consts
+    R.rule("C13-R13", "a comment may follow a statement: N-Triples, N-Quads and Turtle allow `<s> <p> <o> . # note`. Every line loader therefore reaches, "
+                      "before it tests the statement terminator or tokenises the line, a comment scanner that dispatches on `#` and on the delimiters "
+                      "of IRIs (`<`, `>`) and literals (`\"`) - so that a `#` inside an IRI fragment or a string is not taken for a comment. A loader that "
+                      "only skips lines *starting* with `#` drops the statement (`missing dot`) or reads the words of the comment as another triple")
+    found = 0
+    for ent in LOADER_ENTRIES:
+        b = prog.one("SparqlDatabase::" + ent, crate="kolibrie")
+        if b is None:
+            continue
+        found += 1
+        R.saw(b)
+        reach = [prog.bodies[k] for k in prog.reachable([b.key]) if k in prog.bodies and prog.bodies[k].crate == "kolibrie"]
+        scanners = []
+        for y in reach:
+            if y.is_closure or y.local_ty(0) not in ("&str", "alloc::string::String", "core::option::Option<&str>", "alloc::borrow::Cow<'_, str>"):
+                continue
+            cs = _char_consts(prog, y) or set()
+            if {35, 60, 62, 34} <= cs:
+                scanners.append(y)
+        # the scanner is applied to the raw line: called from the body that splits the document into lines (not only from a deeper tokenizer)
+        liners = [y for y in reach if not y.is_closure and any(c.name() == "lines" for x in prog.family(y.key) for c in x.calls())]
+        direct = [y for y in scanners if any(c.key == y.key for ln in liners for x in prog.family(ln.key) for c in x.calls())]
+        R.ob("C13-R13", "strips:" + ent, "%s removes a trailing comment with an IRI- and literal-aware scanner (found: %s)" % (ent, sorted(y.name for y in direct) or "none"),
+             bool(direct), where=b.where(),
+             detail=None if direct else "`<s> <p> \"v\" . # note` is rejected as `missing dot` (N-Triples, N-Quads) or yields the extra triple (`#`, `note`, ..) (Turtle)")
+    R.floor("C13-R13", "line loaders", found, 4)
